@@ -50,6 +50,8 @@ def main():
         "(exercised by the oracle after every op; the discipline itself is re-read from the source with ast on every run)",
     ]
     run.build_and_audit(["TdVerif.Props.C13"])
+    import c13_shapes
+    c13_shapes.check(run, "C13")   # the hand-transcribed functions still have the shape that was transcribed
     if run.tier == "thorough":
         run.leanchecker(["TdVerif.Props.C13", "TdVerif.Lemmas.C13", "TdVerif.Lemmas.C13Params", "TdVerif.Lemmas.C13Inplace", "TdVerif.Model.C13Module", "TdVerif.Model.C13Params", "TdVerif.Model.C13Inplace"])
     drv = run.driver()
@@ -82,11 +84,61 @@ def main():
         world = G.World(graph["kinds"])
         root = 0 if rng.random() < 0.8 else rng.randrange(0, len(graph["mods"]))
         malformed = rng.random() < 0.25
+        if malformed:
+            # keys that name a None entry / nothing at all are modelled for the native branch only (on a module with a custom
+            # __setattr__ torch's swap_tensor accepts a None slot and hands None back: outside the model)
+            for md in graph["mods"]:
+                md["custom"] = False
         tree = G.gen_tree(rng, graph, world, root, malformed=malformed)
         gsx = G.graph_sx(graph, world)
         tsx = G.tree_sx(tree, world)
         reqs += [f"(c13.from_module {gsx} {root})", f"(c13.roundtrip {gsx} {root} {tsx})"]
         ctx.append((graph, world, root, tree, malformed, gsx, tsx))
+    # use_state_dict=True: the same graphs through the state-dict API (valid trees, possibly with empty nested entries)
+    sd_reqs, sd_ctx = [], []
+    for it in range(n_swap // 4):
+        graph = G.gen_graph(rng)
+        world = G.World(graph["kinds"])
+        tree = G.gen_tree(rng, graph, world, 0)
+        gsx, tsx = G.graph_sx(graph, world), G.tree_sx(tree, world)
+        sd_reqs += [f"(c13.from_module_sd {gsx} 0)", f"(c13.roundtrip_sd {gsx} 0 {tsx})"]
+        sd_ctx.append((graph, world, tree, gsx, tsx))
+    sd_answers = ask(drv, sd_reqs)
+    for i, (graph, world, tree, gsx, tsx) in enumerate(sd_ctx):
+        m_from, m_rt = parse_sx(sd_answers[2 * i]), parse_sx(sd_answers[2 * i + 1])
+        run.case(("state_dict", gsx, tsx))
+        mods = G.build(graph, world)
+        before = G.id_snapshot(mods)
+        with time_limit(60):
+            fm = TensorDict.from_module(mods[0], use_state_dict=True)
+        impl_from = ["ok", G.td_tree(fm, world, detached=True)] if len(list(fm.keys())) else ["ok", "none"]
+        run.corr("from_module_state_dict", [gsx], impl_from, m_from)
+        sd = mods[0].state_dict()
+        flat = {".".join(k) if isinstance(k, tuple) else k: v for k, v in fm.items(True, True)}
+        if set(flat) != set(sd) or any(flat[k].data_ptr() != sd[k].data_ptr() for k in sd):
+            run.oracle_fail("from_module", [gsx, "use_state_dict"], f"from_module(use_state_dict=True) differs from state_dict(): {sorted(set(flat) ^ set(sd))}", "from_module:state_dict")
+        else:
+            run.oracle_ok("from_module_state_dict")
+        td = G.make_td(tree, world)
+        try:
+            with time_limit(60):
+                s = td.to_module(mods[0], use_state_dict=True)
+                s_tree = G.td_tree(s, world)
+                s.to_module(mods[0], use_state_dict=True, swap_dest=td)
+            impl = ["ok", G.snapshot(mods, world), s_tree]
+        except TimeoutError:
+            raise
+        except KeyError:
+            impl = ["ok", G.snapshot(mods, world), s_tree]     # _quick_set into td failed after the module loop
+        except Exception as e:  # noqa: BLE001
+            impl = ["err", err_word(e), G.snapshot(mods, world)]
+        run.count("state_dict.outcome", impl[0])
+        run.corr("to_module_state_dict", [gsx, tsx], impl, m_rt)
+        d = G.diff_snap(before, G.id_snapshot(mods))
+        if impl[0] == "ok" and d:
+            run.oracle_fail("swap_back", [gsx, 0, tsx, "use_state_dict"], "module not restored through the state-dict API: " + ",".join(d[:6]), "swap_back:state_dict")
+        elif impl[0] == "ok":
+            run.oracle_ok("swap_back_state_dict")
     answers = ask(drv, reqs)
     for i, (graph, world, root, tree, malformed, gsx, tsx) in enumerate(ctx):
         m_from, m_rt = parse_sx(answers[2 * i]), parse_sx(answers[2 * i + 1])
@@ -175,6 +227,7 @@ def main():
         tds = [G.make_td(t, world) for t in G.prog_trees(prog)]
         swaps = []
         status = "normal"
+        masked = None
         try:
             with time_limit(60):
                 G.run_prog(prog, mods, tds, swaps, x)
@@ -182,6 +235,12 @@ def main():
             raise
         except Exception as e:  # noqa: BLE001  (Boom from the body, or KeyError from _quick_set in __exit__)
             status = "raised"
+            masked = e
+            run.count("prog.exception", type(e).__name__)
+        except BaseException as e:  # noqa: BLE001
+            if not getattr(e, "_c13", False):
+                raise
+            status = "raised-base"
             run.count("prog.exception", type(e).__name__)
         run.count("prog.status", status)
         impl = [status, G.snapshot(mods, world), [len(getattr(s, "_last_op_queue", ())) for s in swaps]]
@@ -190,7 +249,11 @@ def main():
             run.sample({"stream": "with_blocks", "graph": gsx, "program": psx, "model": answers[i][:600]})
         d = G.diff_snap(before, G.id_snapshot(mods))
         stale = [j for j, s in enumerate(swaps) if len(getattr(s, "_last_op_queue", ()))]
-        if d:
+        if masked is not None and isinstance(masked, RuntimeError) and "boolean" in str(masked):
+            run.oracle_fail("with_blocks", [gsx, psx], "a BaseException raised in the body was replaced on its way out of the with-block by "
+                            f"RuntimeError({str(masked)[:60]}…): __exit__ returned a tensordict, which Python asks for its truth value",
+                            "with_blocks:base-exception-masked")
+        elif d:
             run.oracle_fail("with_blocks", [gsx, psx], f"module differs after the program ({status}): " + ",".join(d[:6]),
                             f"with_blocks:{status}:{d[0].split(':')[0]}")
         elif stale:
